@@ -25,6 +25,8 @@ class Run:
         self.assumptions = []
         self.controls = []
         self.errors = []
+        self._undecided = {}  # rule id -> reason: failing obligations of these rules are not decided
+        self.undecided = []
 
     # -- declaring
     def rule(self, rid, text):
@@ -37,6 +39,12 @@ class Run:
     def ob(self, rule, instance, ok, detail="", loc=None, fn=None, found=None):
         """one structural obligation.  key = rule|fn|instance (never a line number)."""
         key = "%s|%s|%s" % (rule, fn or "-", instance)
+        if not ok and rule in self._undecided:
+            # the code is not written in an idiom this rule models: neither discharged nor refuted
+            self.undecided.append({"rule": rule, "instance": instance, "fn": fn, "reason": self._undecided[rule], "would_report": (detail or "")[:200]})
+            if fn:
+                self.functions.add(fn)
+            return True
         self.obls.append(
             {"rule": rule, "instance": instance, "ok": bool(ok), "detail": detail, "loc": loc, "fn": fn, "key": key, "found": found}
         )
@@ -46,6 +54,17 @@ class Run:
 
     def info(self, rule, text):
         self.infos.append({"rule": rule, "text": text})
+
+    def set_undecided(self, rules, reason):
+        """from here on, a failing obligation of one of `rules` is recorded as UNDECIDED instead of
+        a violation: used when the code under a shape-matching rule is not in any idiom the rule
+        models (a deleted check is still in the idiom and still fails; a rewrite is not decided)."""
+        for r in rules:
+            self._undecided[r] = reason
+
+    def clear_undecided(self, rules=None):
+        for r in list(self._undecided) if rules is None else rules:
+            self._undecided.pop(r, None)
 
     def floor(self, rule, what, count, minimum):
         """a rule that matched fewer instances than confirmed by hand passes vacuously: fail it."""
@@ -79,6 +98,8 @@ class Run:
                 json.dump({"property": self.pid, "tier": self.tier, **{k: o[k] for k in ("rule", "instance", "detail", "loc", "fn", "key", "found")}, "rule_text": self.rules.get(o["rule"], "")}, fh, indent=1, default=str)
             lines.append("VIOLATION property=%s replay=%s" % (self.pid, rp))
             lines.append("  %s  %s  %s  %s :: %s" % (o["loc"] or "-", o["fn"] or "-", o["rule"], o["instance"], o["detail"]))
+        for u in self.undecided[:20]:
+            lines.append("UNDECIDED: property=%s %s %s (%s)" % (self.pid, u["rule"], u["instance"], u["reason"]))
         for e in self.errors:
             lines.append("ERROR: " + e)
         nontrivial = set(o["key"] for o in self.obls if o["ok"] or o["key"] in known or True)
@@ -115,6 +136,8 @@ class Run:
                 "floors": self.floors,
                 "samples": samples or [{"note": "no obligations"}],
                 "information": self.infos[:60],
+                "undecided": self.undecided[:60],
+                "n_undecided": len(self.undecided),
                 "known_findings_matched": [o["key"] for o in old],
                 "negative_controls": self.controls,
                 "exhaustive": True,
@@ -170,3 +193,9 @@ class Remap:
     def info(self, rule, text):
         if rule in self._m:
             return self._R.info(self._m[rule], text)
+
+    def set_undecided(self, rules, reason):
+        return self._R.set_undecided([self._m[r] for r in rules if r in self._m], reason)
+
+    def clear_undecided(self, rules=None):
+        return self._R.clear_undecided(None if rules is None else [self._m[r] for r in rules if r in self._m])
